@@ -182,6 +182,21 @@ class Rec:
         return "Rec(%s)" % self.key
 
 
+def _wrap(rec):
+    """the same recording callable as a plain function: ONE code object for every node, the behaviour bound as a default
+    argument (what `lambda x, k=k: ...` in a loop gives) — callables that share their code but not their defaults are
+    different computations"""
+    def f(*args, _r=rec, **kwargs):
+        return _r(*args, **kwargs)
+    f.__name__ = rec.__name__
+    f.key, f.kind, f.m = rec.key, rec.kind, rec.m      # what the harness reads off a callable
+    return f
+
+
+def _callable(case, rec):
+    return _wrap(rec) if case.get("fn_wrap") else rec
+
+
 def result_json(key, beh, vals=None):
     """What the callable of behaviour `beh` returns, for the model."""
     kind, m = beh["kind"], beh.get("m", 0)
@@ -331,7 +346,7 @@ def build(case):
         names = [t["name"] for t in case["tasks"]]
         for t in case["tasks"]:
             beh = t["beh"]
-            f = Rec(t["name"], beh["kind"], beh.get("m", 0))
+            f = _callable(case, Rec(t["name"], beh["kind"], beh.get("m", 0)))
             definition = TaskDefinition(func=TaskDefinition.func_enc(f), environment=[], entrypoint="", input_schema={},
                                         output_schema={o: "Any" for o in t["outs"]})
             tasks[t["name"]] = TaskInstance(definition=definition, static_input_kw={k: dec(v) for k, v in t["kw"]},
@@ -370,7 +385,7 @@ def build(case):
                 # the very callable object of an earlier node (the case repeats its behaviour)
                 f = callables[nd["share"]]
             else:
-                f = Rec(nd["name"], beh["kind"], beh.get("m", 0))
+                f = _callable(case, Rec(nd["name"], beh["kind"], beh.get("m", 0)))
             callables.append(f)
             args, intent = _declared_args(nd["args"])
             kwargs = {k: dec(v) for k, v in nd["kwargs"]}
@@ -391,7 +406,7 @@ def build(case):
         payload_objs, keys_of = [], []
         for nd in case["nodes"]:
             beh = nd["beh"]
-            f = Rec(nd["name"], beh["kind"], beh.get("m", 0))
+            f = _callable(case, Rec(nd["name"], beh["kind"], beh.get("m", 0)))
             args, intent = _declared_args(nd["args"])
             kwargs = {k: dec(v) for k, v in nd["kwargs"]}
             ins = [nodes[pi] if o is None else nodes[pi].get_output(o) for pi, o in nd["inputs"]]
